@@ -44,7 +44,9 @@ LIBC_FLAGS = ["-D_GNU_SOURCE", "-fno-builtin", "-I{VERIF}/harness/libc_shadow",
 def libc_units(files, extra_flags=()):
     """Units for /repo/compat/libc sources: compiled against the host headers,
     then symbol-prefixed igc_ (see build())."""
-    return [{"src": "R:compat/libc/" + f, "group": "igc_", "flags": LIBC_FLAGS + list(extra_flags)}
+    # -O0: the shim sources are small C files; without optimisation no load or store of theirs is deleted as dead code
+    # before the sanitizers see it (a one-byte over-read whose value is not used, for instance)
+    return [{"src": "R:compat/libc/" + f, "group": "igc_", "flags": LIBC_FLAGS + list(extra_flags), "opt": "-O0"}
             for f in files]
 
 
@@ -69,6 +71,11 @@ def compile_unit(unit, outdir, san, extra):
     tag = hashlib.sha1((unit["src"] + unit.get("tag", "")).encode()).hexdigest()[:8]
     obj = os.path.join(outdir, os.path.basename(src).replace(".", "_") + "_" + tag + ".o")
     opt = unit.get("opt")
+    if opt is None and unit["src"].startswith("R:"):
+        # translation units of the library itself are compiled without optimisation: no load or store of theirs is
+        # deleted as dead code before the sanitizers see it (the harness and the headers it includes stay at -O1;
+        # a propdef says "opt": "-O1" where an exhaustive sweep needs the speed)
+        opt = "-O0"
     common = [x for x in COMMON if not (opt and x.startswith("-O"))]
     if opt:
         common.append(opt)
